@@ -11,6 +11,11 @@
 
 using namespace pbt;
 
+// Keep the resident set small (16 shards run in parallel on a shared host): a bounded ASan
+// quarantine instead of the default 256 MB, and 12-frame allocation stacks (rapidcheck's deep, varying
+// call stacks otherwise fill the stack depot with ~20 KB per case).  ASAN_OPTIONS from ./check still apply.
+extern "C" const char *__asan_default_options() { return "quarantine_size_mb=16:malloc_context_size=12"; }
+
 // ---------------------------------------------------------------- the group
 static mpz_t P, Q, TWO258, TWO2048;  // p, (p-1)/2, 2^258, 2^2048
 static std::string P_BE;             // 256-byte big-endian p
